@@ -14,7 +14,7 @@ EXACT = ("eager", "normalize", "lazy", "sequential", "unfold", "optimize", "subs
 
 
 class Firing:
-    __slots__ = ("interp", "cls", "fn", "args", "result", "depth", "parent", "index", "types", "subs")
+    __slots__ = ("interp", "cls", "fn", "args", "result", "depth", "parent", "index", "types", "subs", "fresh")
 
     def __init__(self, interp, cls, fn, args, result, depth, parent, index, subs=None):
         self.interp = interp
@@ -26,6 +26,7 @@ class Firing:
         self.parent = parent
         self.index = index
         self.subs = subs
+        self.fresh = None
 
     @property
     def rule(self):
@@ -107,6 +108,7 @@ class DispatchMonitor:
             parent = mon.stack[-1] if mon.stack else None
             mon.stack.append(idx)
             f = Firing("subs", cls, "funsor.terms.SubstituteInterpretation.interpret", args, None, len(mon.stack), parent, idx, subs=self_.subs)
+            f.fresh = getattr(self_, "fresh", None)  # names fresh in the node being rebuilt (children were substituted already)
             mon.firings.append(f)
             try:
                 r = orig(self_, cls, *args)
@@ -236,7 +238,7 @@ def check_firing(f, rng=None, max_points=48):
             lhs = base
             rhs = lift(f.result)
             # the step's contract: result == cls(*args) with `subs` applied to the names still free in it
-            subs = tuple((k, lift(v)) for k, v in f.subs if k in free)
+            subs = tuple((k, lift(v)) for k, v in f.subs if k in free and (f.fresh is None or k in f.fresh))
             if subs:
                 lhs = ("sub", base, subs)
         else:
